@@ -70,6 +70,27 @@ func c14Isolation(r *core.Run, scheduled bool) {
 		pgpKeys = append(pgpKeys, e)
 	}
 	var idents map[string]*world.Identity
+	// token latency, drawn up front (token operations are also issued by
+	// relic's own goroutines, which must not draw from the tape): pings that
+	// succeed slowly, up to just under the 1 s ping timeout, and signing and
+	// key look-ups that take a few virtual milliseconds
+	slowTokens := t.Chance(1, 2, "slow-tokens")
+	tokDelay := map[string][]time.Duration{}
+	if slowTokens {
+		for _, k := range []string{"tokA/ping", "tokB/ping", "tokA/sign", "tokB/sign", "tokA/getkey", "tokB/getkey"} {
+			for i := 0; i < 48; i++ {
+				var d time.Duration
+				if strings.HasSuffix(k, "/ping") {
+					if t.Chance(1, 2, "slow-ping") {
+						d = time.Duration(1+t.Choose(95, "ping-delay")) * 10 * time.Millisecond
+					}
+				} else if t.Chance(1, 3, "slow-op") {
+					d = time.Duration(1+t.Choose(40, "op-delay")) * time.Millisecond
+				}
+				tokDelay[k] = append(tokDelay[k], d)
+			}
+		}
+	}
 	w := world.Run(r, world.Options{Cooperative: scheduled, MaxSteps: 600000}, func(w *world.World) {
 		cfg := &config.Config{Server: &config.ServerConfig{TokenCheckInterval: 2, TokenCheckTimeout: 1, TokenCacheSeconds: cacheS}, Clients: map[string]*config.ClientConfig{}}
 		idents = addSigningKeys(w, cfg, []string{"tokA", "tokB"}, "r1")
@@ -86,6 +107,20 @@ func c14Isolation(r *core.Run, scheduled bool) {
 		must(cfg.Normalize(""))
 		defer useConfig(cfg)()
 		world.Bind(w)
+		if slowTokens {
+			w.TokenPlan = func(tok *world.SimToken, op, key string, n int) world.TokOutcome {
+				k := tok.Name + "/" + op
+				if op == "ping" {
+					// relic pings the tokens in Go map order, which no seed
+					// controls: the n-th ping takes the same time on either
+					k = "tokA/ping"
+				}
+				if ds := tokDelay[k]; n < len(ds) {
+					return world.TokOutcome{Delay: ds[n]}
+				}
+				return world.TokOutcome{}
+			}
+		}
 		srv, err := server.New(cfg)
 		if err != nil {
 			r.Notes["internal_error"] = "server.New: " + err.Error()
@@ -277,6 +312,14 @@ func c14Isolation(r *core.Run, scheduled bool) {
 			r.Sig("health")
 			if !ok {
 				r.Failf("C14.wrong-result", "health", "health request failed although every token is healthy: %s", desc)
+			}
+			if rq.End != rq.Start {
+				// in isolation a health request is answered at once; here it
+				// waited for something another activity holds
+				r.Failf("C14.health-blocked", "health", "health request asked at t=%v was answered at t=%v: it waited behind other work (token pings take up to 1s here): %s", rq.Start, rq.End, desc)
+			}
+			if slowTokens {
+				r.Probe("health-request-while-tokens-slow")
 			}
 		case "list":
 			r.Sig("list/" + rq.Ident)
